@@ -30,6 +30,7 @@ class Monitor:
             kind, val = pers.run(self.s.gateway.persistence.load, vfs)
             assert kind == "ok", val
             assert sorted(self.s.gateway.nodes) == sorted(restore)
+            self.vfs = vfs
         else:
             self.s = Session(self.version)
         for n in cfg["registry"]:
@@ -59,6 +60,10 @@ class Monitor:
             evs.append(["present-last"])
         for u in self.present_pool:
             evs.append(["present", u])
+        if self.cfg_restore:
+            # the file (not saved since) is loaded again: explicitly, and by entering and leaving the context
+            evs.append(["reload"])
+            evs.append(["reenter"])
         return evs
 
     def apply(self, ev: list) -> list:
@@ -122,6 +127,20 @@ class Monitor:
                     bad("error-while-free", f"too-many-nodes raised although ids above the highest registered id {top} are free")
             else:
                 bad("other-outcome", f"id request gave {out.describe()}")
+        elif ev[0] in ("reload", "reenter"):
+            from .. import pers
+
+            self.nontrivial = False
+            if ev[0] == "reload":
+                k1, v1 = pers.run(gw.persistence.load, self.vfs)
+                k2, v2 = "skipped", None
+            else:
+                k1, v1 = pers.run(gw.__aenter__, self.vfs)
+                k2, v2 = pers.run(lambda: gw.__aexit__(None, None, None), self.vfs) if k1 == "ok" else ("skipped", None)
+                s._agen = None
+            self.last_desc = {ev[0]: [k1, type(v1).__name__, k2, type(v2).__name__]}
+            if k1 != "ok" or k2 not in ("ok", "skipped"):
+                bad("reload-failed", f"{ev[0]} gave {k1} {v1!r} / {k2} {v2!r}")
         elif ev[0] == "sleep":
             out = s.line(f"{ev[1]};255;3;0;{R.wake_type(self.pv)};0")
             self.last_desc = out.describe()
